@@ -69,6 +69,9 @@ def h_tlv(ctx, n, twin=False):
         ctx.holds("decode consumes exactly length+2", u.packet_len == n + 2)
         ctx.holds("decoded == original", u == tlv)
         ctx.holds("repack identical", u.pack() == raw)
+        earlier_result_survives(ctx, lambda: sym_and(u.tlv_type == t, u.value == val, u.pack() == raw),
+                                [lambda: CfdpTlv.unpack(bytes([6, 3, 9, 8, 7])), lambda: CfdpTlv.unpack(bytes([0, 0]))])
+    pack_hands_out_fresh_buffers(ctx, tlv.pack, ctx.bytes_of([t, n] + items_of(val)))
     t2 = sym_type(ctx, "t2")
     tlv.tlv_type = t2
     ctx.holds("pack after tlv_type assignment carries the new type", sym_and(tlv.pack() == ctx.bytes_of([t2, n] + items_of(val)), tlv.tlv_type == t2))
@@ -176,6 +179,10 @@ def via_all_routes(ctx, cls, to_name, raw, check):
             ctx.holds("unpack returns the same parameters", check(u))
             ctx.holds("unpack: packet_len == packed length", u.packet_len == len(raw))
             ctx.holds("unpack: repack identical", u.pack() == raw)
+            if k == 0:
+                others = [o for o in (bytes([6, 2, 1, 2]), bytes([5, 1, 9]), bytes([4, 1, 0x52]), bytes([2, 3, 1, 2, 3]),
+                                      bytes([0, 5, 0x30, 1, 0x61, 1, 0x62]), bytes([1, 6, 0x3F, 1, 0x61, 1, 0x62, 0]))]
+                earlier_result_survives(ctx, lambda: sym_and(check(u), u.pack() == raw), [(lambda o=o: cls.unpack(o)) for o in others])
     e, g = call(CfdpTlv.unpack, raw)
     if e is not None:
         ctx.fail("generic unpack(pack) raised", exc_name(e))
